@@ -90,3 +90,82 @@ Proof.
   pose proof (NoDup_incl_length NDL Hincl) as Hlen. unfold L in Hlen. rewrite !map_length, seq_length in Hlen.
   unfold cores in Hlen. rewrite map_length in Hlen. unfold n in Hlen. lia.
 Qed.
+
+Lemma up_hgt_dep : forall s j e i, wf s -> scoh s -> cfind (cores s) j = Some e -> Z.of_nat i <= dep s j ->
+    hgt (cores s) (up (cores s) i j) = hgt (cores s) j - Z.of_nat i /\ exists e', cfind (cores s) (up (cores s) i j) = Some e'.
+Proof.
+  intros s j e i W C He Hi. destruct (dep_facts s j e W C He) as (H0 & _ & Hmin).
+  apply up_hgt; [exact W|exists e; exact He|]. intros i' Hi'. apply Hmin. lia.
+Qed.
+
+Lemma dep_parent : forall s j e, wf s -> cfind (cores s) j = Some e -> j <> root _ _ s ->
+    dep s (parent (cores s) j) = dep s j - 1 /\ exists pe, cfind (cores s) (parent (cores s) j) = Some pe.
+Proof.
+  intros s j e W He Hr. pose proof (wf_parent_height _ _ _ W He Hr) as Hh. unfold parent. rewrite He.
+  destruct (wf_closed s W _ _ He) as (pe & Hpe). split; [unfold dep; lia|exists pe; exact Hpe].
+Qed.
+
+Lemma dep_zero_root : forall s j e, wf s -> scoh s -> cfind (cores s) j = Some e -> dep s j = 0 -> j = root _ _ s.
+Proof. intros s j e W C He H0. destruct (dep_facts s j e W C He) as (_ & Hr & _). rewrite H0 in Hr. exact Hr. Qed.
+
+(** getForkBlock / findFork returns the highest common ancestor *)
+Lemma lca_spec : forall s, wf s -> scoh s -> forall fuel a b ea eb,
+    cfind (cores s) a = Some ea -> cfind (cores s) b = Some eb ->
+    (Z.to_nat (dep s a) + Z.to_nat (dep s b) < fuel)%nat ->
+    exists f ka kb, lca ccmd (blocks _ _ s) fuel a b = Some f /\
+      f = up (cores s) ka a /\ f = up (cores s) kb b /\ Z.of_nat ka <= dep s a /\ Z.of_nat kb <= dep s b /\
+      (forall g i j, g = up (cores s) i a -> g = up (cores s) j b -> Z.of_nat i <= dep s a -> Z.of_nat j <= dep s b ->
+                     hgt (cores s) g <= hgt (cores s) f).
+Proof.
+  intros s W C fuel. induction fuel as [|f IH]; intros a b ea eb Ha Hb Hm; [lia|].
+  destruct (dep_facts s a ea W C Ha) as (Da0 & _ & _). destruct (dep_facts s b eb W C Hb) as (Db0 & _ & _).
+  cbn [lca]. destruct (N.eqb a b) eqn:Eab.
+  { apply N.eqb_eq in Eab. subst b. exists a, O, O. repeat split; try reflexivity; try lia.
+    intros g i j -> _ Hi _. destruct (up_hgt_dep s a ea i W C Ha Hi) as [Hh _]. lia. }
+  apply N.eqb_neq in Eab.
+  destruct (core_find _ _ _ Ha) as (ba & Fa & Ca). destruct (core_find _ _ _ Hb) as (bb & Fb & Cb). rewrite Fa, Fb.
+  assert (Hha : hgt (cores s) a = b_h ccmd ba) by (unfold hgt; rewrite Ha, <- Ca; reflexivity).
+  assert (Hhb : hgt (cores s) b = b_h ccmd bb) by (unfold hgt; rewrite Hb, <- Cb; reflexivity).
+  assert (Hpa : parent (cores s) a = b_par ccmd ba) by (unfold parent; rewrite Ha, <- Ca; reflexivity).
+  assert (Hpb : parent (cores s) b = b_par ccmd bb) by (unfold parent; rewrite Hb, <- Cb; reflexivity).
+  assert (Hup : forall x ex i, cfind (cores s) x = Some ex -> Z.of_nat i <= dep s x -> hgt (cores s) (up (cores s) i x) = hgt (cores s) x - Z.of_nat i)
+    by (intros x ex i Hx Hi; exact (proj1 (up_hgt_dep s x ex i W C Hx Hi))).
+  destruct (Z.ltb (b_h ccmd ba) (b_h ccmd bb)) eqn:E1.
+  - apply Z.ltb_lt in E1.
+    assert (Hbr : b <> root _ _ s) by (intro; subst b; unfold dep in *; lia).
+    assert (Hdb : 1 <= dep s b) by (unfold dep in *; lia).
+    destruct (dep_parent s b eb W Hb Hbr) as (Dp & (pe & Hpe)). rewrite Hpb in Dp, Hpe.
+    destruct (IH a (b_par ccmd bb) ea pe Ha Hpe) as (fk & ka & kb & Hl & H1 & H2 & K1 & K2 & Hmax); [lia|].
+    exists fk, ka, (S kb). split; [exact Hl|]. split; [exact H1|]. split; [cbn; rewrite Hpb; exact H2|]. split; [exact K1|]. split; [lia|].
+    intros g i j Hg1 Hg2 Hi Hj. destruct j as [|j].
+    + exfalso. cbn in Hg2. rewrite Hg1 in Hg2. pose proof (Hup a ea i Ha Hi) as Hh. rewrite Hg2 in Hh. lia.
+    + apply (Hmax g i j Hg1); [cbn in Hg2; rewrite Hpb in Hg2; exact Hg2|exact Hi|lia].
+  - destruct (Z.ltb (b_h ccmd bb) (b_h ccmd ba)) eqn:E2.
+    + apply Z.ltb_lt in E2.
+      assert (Har : a <> root _ _ s) by (intro; subst a; unfold dep in *; lia).
+      assert (Hda : 1 <= dep s a) by (unfold dep in *; lia).
+      destruct (dep_parent s a ea W Ha Har) as (Dp & (pe & Hpe)). rewrite Hpa in Dp, Hpe.
+      destruct (IH (b_par ccmd ba) b pe eb Hpe Hb) as (fk & ka & kb & Hl & H1 & H2 & K1 & K2 & Hmax); [lia|].
+      exists fk, (S ka), kb. split; [exact Hl|]. split; [cbn; rewrite Hpa; exact H1|]. split; [exact H2|]. split; [lia|]. split; [exact K2|].
+      intros g i j Hg1 Hg2 Hi Hj. destruct i as [|i].
+      * exfalso. cbn in Hg1. rewrite Hg2 in Hg1. pose proof (Hup b eb j Hb Hj) as Hh. rewrite Hg1 in Hh. lia.
+      * apply (Hmax g i j); [cbn in Hg1; rewrite Hpa in Hg1; exact Hg1|exact Hg2|lia|exact Hj].
+    + apply Z.ltb_ge in E1, E2.
+      assert (Har : a <> root _ _ s).
+      { intro. subst a. assert (dep s b = 0) by (unfold dep in *; lia). apply Eab. symmetry. eapply dep_zero_root; eassumption. }
+      assert (Hbr : b <> root _ _ s).
+      { intro. subst b. assert (dep s a = 0) by (unfold dep in *; lia). apply Eab. eapply dep_zero_root; eassumption. }
+      assert (Hda : 1 <= dep s a).
+      { destruct (Z.eq_dec (dep s a) 0) as [e0|n0]; [exfalso; apply Har; eapply dep_zero_root; eassumption|lia]. }
+      assert (Hdb : 1 <= dep s b).
+      { destruct (Z.eq_dec (dep s b) 0) as [e0|n0]; [exfalso; apply Hbr; eapply dep_zero_root; eassumption|lia]. }
+      destruct (dep_parent s a ea W Ha Har) as (Dpa & (pea & Hpea)). rewrite Hpa in Dpa, Hpea.
+      destruct (dep_parent s b eb W Hb Hbr) as (Dpb & (peb & Hpeb)). rewrite Hpb in Dpb, Hpeb.
+      destruct (IH (b_par ccmd ba) (b_par ccmd bb) pea peb Hpea Hpeb) as (fk & ka & kb & Hl & H1 & H2 & K1 & K2 & Hmax); [lia|].
+      exists fk, (S ka), (S kb). split; [exact Hl|]. split; [cbn; rewrite Hpa; exact H1|]. split; [cbn; rewrite Hpb; exact H2|]. split; [lia|]. split; [lia|].
+      intros g i j Hg1 Hg2 Hi Hj.
+      pose proof (Hup a ea i Ha Hi) as Hh1. pose proof (Hup b eb j Hb Hj) as Hh2. rewrite <- Hg1 in Hh1. rewrite <- Hg2 in Hh2.
+      destruct i as [|i]; [exfalso; cbn in Hg1; destruct j as [|j]; [cbn in Hg2; congruence|lia]|].
+      destruct j as [|j]; [exfalso; lia|].
+      apply (Hmax g i j); [cbn in Hg1; rewrite Hpa in Hg1; exact Hg1|cbn in Hg2; rewrite Hpb in Hg2; exact Hg2|lia|lia].
+Qed.
